@@ -17,17 +17,78 @@ def build(world):
     return hc.build_for(world, PROP) + gu.version_units(world) + gu.listen_units(world)
 
 
+# "Internal and stream message types that do not exist in the active protocol are refused as unsupported; those that exist are
+# accepted."  Which type numbers exist in a protocol version is a fact about the MySensors serial API, not about this code base:
+# it is specification data.  The handler contracts take "exists" from the enum of the active protocol module (that is what the
+# dispatch consults), so the enums themselves are pinned here - internal types 0..14 / 0..17 / 0..28 / 0..28 / 0..33 and stream
+# types 0..5 - and every table must be exactly that range.
+TYPE_COUNT = {"protocol_14": {"Internal": 15, "Stream": 6}, "protocol_15": {"Internal": 18, "Stream": 6}, "protocol_20": {"Internal": 29, "Stream": 6},
+              "protocol_21": {"Internal": 29, "Stream": 6}, "protocol_22": {"Internal": 34, "Stream": 6}}
+VOF = {"protocol_14": "1.4", "protocol_15": "1.5", "protocol_20": "2.0", "protocol_21": "2.1", "protocol_22": "2.2"}
+
+
+def extra_checks(world):
+    from contracts import handlers_c as hcx
+    hc.all_units(world)
+    out = []
+    for v in hcx.VMODS:
+        ns = world.modules[hcx.PROTO + v].ns
+        for enum, n in TYPE_COUNT[v].items():
+            have = sorted(int(x) for x in ns[enum].enum_canon)
+            want = list(range(n))
+            diff = {"missing": sorted(set(want) - set(have)), "surplus": sorted(set(have) - set(want))}
+            out.append({"name": f"C05/type-numbers-of-the-protocol[{hcx.VTAG[v]}]/{enum}", "tag": "property", "status": "unsat" if have == want else "sat",
+                        "secs": 0.0, "backend": "structural", "unit": f"{v}.{enum}", "path": [f"documented 0..{n - 1}; {diff}"],
+                        "model": {"version": VOF[v], "enum": enum, **diff}})
+    return out
+
+
+def type_sweep(versions=hn.VERS):
+    """'all internal/stream type numbers per version', natively: one line per type number 0..40 (internal) / 0..9 (stream) from a known
+    node under every version, real gateway against the reference model (whose tables are written down, not read from the code)."""
+    from . import refmodel as rm
+    n = 0
+    state = {"nodes": {1: {"children": {1: {"type": 6}}}}}
+    for ver in versions:
+        for k, hi in ((3, 41), (4, 10)):
+            for t in range(hi):
+                if k == 3 and t in (3, 4):
+                    continue  # id request / response: decided by C11's check
+                line = rm.enc(1, 255, k, 0, t, "1")
+                try:
+                    diffs = rm.run_history(ver, [("recv", line)], state=state)
+                except Exception as e:  # noqa: BLE001
+                    return {"version": ver, "line": line, "observed": f"harness error {e!r}"}, n
+                n += 1
+                hit = [d for d in diffs if PROP in d[0]]
+                if hit:
+                    return {"version": ver, "pre_state": "node 1 known", "line": line, "observed": hit[0][1]}, n
+    return None, n
+
+
 def replay(world, ob):
+    if ob.get("backend") == "structural":
+        m = ob.get("model") or {}
+        f, n = type_sweep([m["version"]] if m.get("version") else hn.VERS)
+        return dict(f, confirmed=True, native_runs=n) if f else {"confirmed": False, "native_runs": n}
     return hn.replay(PROP, world, ob)
 
 
 def bounded(world, tier, seed, rep):
-    return hn.bounded(PROP, tier, seed, rep)
+    r = hn.bounded(PROP, tier, seed, rep)
+    f, n = type_sweep()
+    r["evaluations"] += n
+    r["scope"] += "; plus every internal type number 0..40 and stream type number 0..9 from a known node under each of the 5 versions"
+    r["native_failure"] = r.get("native_failure") or f
+    return r
 
 
 def bounded_search(world, unit_name):
     from pyvc import native
     v = native.unit_version(unit_name)
+    f, n = type_sweep([v] if v else hn.VERS)
+    if f:
+        return [dict(f, clause=f"{PROP}/native-type-sweep")]
     found = hn.search(PROP, [v] if v else hn.VERS, seed=0, budget=600)
     return [dict(found, clause=f"{PROP}/native-differential")] if found else []
 
